@@ -384,6 +384,8 @@ def check(run: Run, prog: Program, model: Model, tier: str) -> None:
     run.rule_text = ("one obligation per external reference in scope (classified by the entropy table), per "
                      "set-valued expression reaching a consumer, per attribute write in a generation class; "
                      "non-trivial = needed callee resolution through self attributes or element-kind inference")
+    from ..entry import entry_transparent
+    entry_transparent(run, prog, model, "generate", "GENERATE-ENTRY")
     run.trusted += ["random.seed(k) makes the module-level generator deterministic (CPython)",
                     "iteration order of sets of str/bytes/objects depends on PYTHONHASHSEED or addresses; sets of small ints do not"]
     run.assumptions += ["uuid4/datetime/date without fixed value are exempt by the property statement"]
